@@ -255,7 +255,13 @@ class DiameterAssociation(object):
     def put_message_into_send_queue(self, msg: Type[DiameterMessage]) -> None:
         self.lock.acquire()
 
-        self.__is_connected()
+        try:
+            self.__is_connected()
+        except DiameterAssociationError:
+            #: The caller gets the error, the lock goes back.
+            self.lock.release()
+            raise
+
         self._send_messages.put(msg)
 
         hop_by_hop = msg.header.hop_by_hop
@@ -292,7 +298,12 @@ class DiameterAssociation(object):
 
     def send_message_from_queue(self) -> None:
         self.lock.acquire()
-        self.__is_connected()
+
+        try:
+            self.__is_connected()
+        except DiameterAssociationError:
+            self.lock.release()
+            raise
 
         diameter_conn_logger.debug(f"There is/are "\
                                    f"{self._send_messages.qsize()} Diameter "\
